@@ -194,7 +194,18 @@ pub fn check(case: &Case, st: &mut Stats) -> CheckResult {
     .into_iter()
     .map(|e| (e.position, e.position + e.deleted_length, String::from_utf8_lossy(&e.inserted_text).into_owned()))
     .collect();
-  let want: Vec<(usize, usize, String)> = outer.iter().map(|e| (e.rep.0, e.rep.1, e.text.clone())).collect();
+  // the overlap-free list keeps an outermost match's edit unless it overlaps the last kept one
+  // (expansions can widen neighbouring matches onto a common sibling) -- the rule `scan -U` applies
+  let mut want: Vec<(usize, usize, String)> = vec![];
+  let mut end = 0;
+  for e in outer.iter() {
+    if e.rep.0 < end {
+      st.label("overlapping_expanded_edit_dropped");
+      continue;
+    }
+    end = e.rep.1;
+    want.push((e.rep.0, e.rep.1, e.text.clone()));
+  }
   if lib != want {
     fail!("C08:library-replace_all-differs", "Node::replace_all proposes {:?}; scan --json (outermost matches) {:?}\nrule:\n{}", lib, want, case.rule_yaml);
   }
